@@ -214,102 +214,7 @@ func checkC18(w *World, r *Report) {
 	})
 
 	r.Rule("R18.7", "the three mandatory classifiers agree with the rule and with each other: checkMandatory, hasMandatoryChildren (absent non-presence container) and hasCaseMandatoryChildren (active case) treat a child as required iff Leaf: Mandatory(); List, LeafList: Limit().Min > 0; Container: not Presence() (looked through)", 12)
-	r.guard("R18.7", func() {
-		type spec struct {
-			accessor string // printed form with the switch variable spelled v
-			isBool   bool
-			want     func(bool, int64) bool
-			text     string
-		}
-		want := map[string]spec{
-			"Leaf":      {"v.Mandatory()", true, func(b bool, _ int64) bool { return b }, "Mandatory()"},
-			"List":      {"v.Limit().Min", false, func(_ bool, n int64) bool { return n > 0 }, "Limit().Min > 0"},
-			"LeafList":  {"v.Limit().Min", false, func(_ bool, n int64) bool { return n > 0 }, "Limit().Min > 0"},
-			"Container": {"v.Presence()", true, func(b bool, _ int64) bool { return !b }, "not Presence()"},
-		}
-		for _, fn := range []string{"checkMandatory", "hasMandatoryChildren", "hasCaseMandatoryChildren"} {
-			fd, _ := w.FuncDecl(w.Func("schema", fn))
-			got := map[string]ast.Expr{}
-			bounds := map[string]string{}
-			ast.Inspect(fd.Body, func(x ast.Node) bool {
-				ts, ok := x.(*ast.TypeSwitchStmt)
-				if !ok {
-					return true
-				}
-				// the bound variable of the switch
-				var bound string
-				if as, ok := ts.Assign.(*ast.AssignStmt); ok && len(as.Lhs) == 1 {
-					if id, ok := as.Lhs[0].(*ast.Ident); ok {
-						bound = id.Name
-					}
-				}
-				if bound == "" {
-					return true
-				}
-				for _, cl := range ts.Body.List {
-					cc := cl.(*ast.CaseClause)
-					if len(cc.List) != 1 || len(cc.Body) != 1 {
-						continue
-					}
-					tn := types.ExprString(cc.List[0])
-					var cond ast.Expr
-					switch st := cc.Body[0].(type) {
-					case *ast.IfStmt:
-						if st.Init == nil && st.Else == nil {
-							cond = st.Cond
-						}
-					case *ast.AssignStmt:
-						if len(st.Rhs) == 1 {
-							cond = st.Rhs[0]
-						}
-					}
-					if cond == nil {
-						continue
-					}
-					got[tn] = cond
-					bounds[tn] = bound
-				}
-				return true
-			})
-			for _, k := range []string{"Leaf", "List", "LeafList", "Container"} {
-				sp := want[k]
-				cond := got[k]
-				if cond == nil {
-					r.Fail("R18.7", fn+": "+k, fd.Pos(), fn+" has no arm that decides a "+k+" child: such a child is never reported missing here although the sibling classifiers report it")
-					continue
-				}
-				acc := strings.Replace(sp.accessor, "v.", bounds[k]+".", 1)
-				ok, bad := true, ""
-				func() {
-					defer func() {
-						if x := recover(); x != nil {
-							if u, isU := x.(undecided); isU {
-								ok, bad = false, u.why
-								return
-							}
-							panic(x)
-						}
-					}()
-					if sp.isBool {
-						for _, b := range []bool{false, true} {
-							env := &guardEnv{p: p, opaque: map[string]constant.Value{acc: constant.MakeBool(b)}}
-							if env.cond(cond) != sp.want(b, 0) {
-								ok, bad = false, fmt.Sprintf("%s = %v gives %v", sp.accessor, b, !sp.want(b, 0))
-							}
-						}
-					} else {
-						for _, n := range []int64{0, 1, 2, 7} {
-							env := &guardEnv{p: p, opaque: map[string]constant.Value{acc: constant.MakeInt64(n)}}
-							if env.cond(cond) != sp.want(false, n) {
-								ok, bad = false, fmt.Sprintf("%s = %d gives %v", sp.accessor, n, !sp.want(false, n))
-							}
-						}
-					}
-				}()
-				r.Check(ok, "R18.7", fn+": "+k, fd.Pos(), "required iff "+sp.text, fmt.Sprintf("%s decides a %s child by `%s` (%s); the rule and the sibling classifiers say: required iff %s", fn, k, types.ExprString(cond), bad, sp.text))
-			}
-		}
-	})
+	r.guard("R18.7", func() { c18Classifiers(w, r) })
 
 	r.Rule("R18.8", "a default under a choice is added only when its case is the active or default one: in the decorator's loop over default children, the path on which IsActiveDefault answered false cannot reach the append of the created default", 1)
 	r.guard("R18.8", func() {
@@ -538,4 +443,228 @@ func checkC18(w *World, r *Report) {
 		dfs(blk)
 		r.Check(inLoop, "R18.4", "checkUnique grouping table", maps[0].Pos(), "allocated inside the loop over the unique statements", "one grouping table is shared by all unique statements of the list: a value of one unique leaf that coincides with a value of another is reported as a violation, and real violations are reported repeatedly")
 	})
+}
+
+// c18Classifiers (R18.7): for each of the three functions that decide whether
+// an absent schema child is required, the decision is read off the path
+// conditions of what the function does about a required child (records it,
+// reports it, or descends into it), with helpers expanded, and evaluated per
+// kind of child for the values of the kind's accessor.
+func c18Classifiers(w *World, r *Report) {
+	kinds := []string{"Leaf", "List", "LeafList", "Container"}
+	text := map[string]string{"Leaf": "Mandatory()", "List": "Limit().Min > 0", "LeafList": "Limit().Min > 0", "Container": "not Presence()"}
+	for _, fn := range []string{"checkMandatory", "hasMandatoryChildren", "hasCaseMandatoryChildren"} {
+		f := w.SSAFunc(w.Func("schema", fn))
+		if f == nil {
+			panic(undecided{"schema." + fn})
+		}
+		sym := NewSym(w)
+		typeOK := func(a *pcAtom) string {
+			if ex, ok := a.v.(*ssa.Extract); ok && ex.Index == 1 {
+				if ta, ok := ex.Tuple.(*ssa.TypeAssert); ok && ta.CommaOk {
+					if n, ok := ta.AssertedType.(*types.Named); ok {
+						return n.Obj().Name()
+					}
+				}
+			}
+			return ""
+		}
+		isKind := func(n string) bool {
+			for _, k := range kinds {
+				if k == n {
+					return true
+				}
+			}
+			return false
+		}
+		// what is done about a required child
+		isAction := func(in ssa.Instruction) bool {
+			switch x := in.(type) {
+			case *ssa.MapUpdate:
+				if mt, ok := x.Map.Type().Underlying().(*types.Map); ok {
+					if n, ok := mt.Elem().(*types.Named); ok && n.Obj().Name() == "Node" {
+						return true
+					}
+				}
+			case *ssa.Call:
+				if g := x.Call.StaticCallee(); g != nil {
+					return g.Name() == "appendMandatoryError" || g.Name() == "hasMandatoryChildren"
+				}
+			}
+			return false
+		}
+		// aboutChild: the atom asks something of the child as a Leaf/List/...: a
+		// method of the value the type switch bound
+		aboutChild := func(a *pcAtom) bool {
+			found := false
+			seen := map[ssa.Value]bool{}
+			var walk func(v ssa.Value, d int)
+			walk = func(v ssa.Value, d int) {
+				if v == nil || seen[v] || d > 6 {
+					return
+				}
+				seen[v] = true
+				switch x := v.(type) {
+				case *ssa.Call:
+					if x.Call.IsInvoke() {
+						if ex, ok := x.Call.Value.(*ssa.Extract); ok && ex.Index == 0 {
+							if ta, ok := ex.Tuple.(*ssa.TypeAssert); ok {
+								if n, ok := ta.AssertedType.(*types.Named); ok && isKind(n.Obj().Name()) {
+									found = true
+								}
+							}
+						}
+					}
+					for _, arg := range x.Call.Args {
+						walk(arg, d+1)
+					}
+				case *ssa.BinOp:
+					walk(x.X, d+1)
+					walk(x.Y, d+1)
+				case *ssa.UnOp:
+					walk(x.X, d+1)
+				case *ssa.Field:
+					walk(x.X, d+1)
+				}
+			}
+			walk(a.v, 0)
+			return found
+		}
+		req := pcZ
+		for _, l := range ssaLoops(f) {
+			body := l.body()
+			lreq := pcZ
+			seenKinds := map[string]bool{}
+			for _, b := range f.Blocks {
+				if !body[b] && !(l.Header.Dominates(b) && reachesLatchFree(b, l)) {
+					continue
+				}
+				for _, in := range b.Instrs {
+					if !isAction(in) {
+						continue
+					}
+					c := sym.PathCond(l.Header, b, nil)
+					for _, a := range c.atoms() {
+						if isKind(typeOK(a)) {
+							seenKinds[typeOK(a)] = true
+						}
+					}
+					lreq = pcOrF(lreq, c)
+				}
+			}
+			// a loop that tells the kinds apart (a later loop that only asks
+			// "container or not" about nodes already classified is not one)
+			if len(seenKinds) >= 3 {
+				req = pcOrF(req, lreq)
+			}
+		}
+		atoms := req.atoms()
+		if len(atoms) > 18 {
+			r.Fail("R18.7", fn, f.Pos(), fmt.Sprintf("%d atomic tests, not decided", len(atoms)))
+			continue
+		}
+		for _, k := range kinds {
+			// accessor values to try
+			type accVal struct {
+				b bool
+				n int64
+			}
+			var vals []accVal
+			if k == "Leaf" || k == "Container" {
+				vals = []accVal{{b: false}, {b: true}}
+			} else {
+				vals = []accVal{{n: 0}, {n: 1}, {n: 2}, {n: 7}}
+			}
+			bad := ""
+			armSeen := false
+			for _, av := range vals {
+				want := false
+				switch k {
+				case "Leaf":
+					want = av.b
+				case "Container":
+					want = !av.b
+				default:
+					want = av.n > 0
+				}
+				// known atoms by model, the others existentially
+				var free []*pcAtom
+				env := map[string]bool{}
+				for _, a := range atoms {
+					if t := typeOK(a); t != "" {
+						env[a.key] = t == k
+						if t == k {
+							armSeen = true
+						}
+						continue
+					}
+					if call, ok := a.v.(*ssa.Call); ok && call.Call.IsInvoke() {
+						switch call.Call.Method.Name() {
+						case "Mandatory", "Presence":
+							env[a.key] = av.b
+							continue
+						}
+					}
+					if bo, ok := a.v.(*ssa.BinOp); ok && a.subj != "" {
+						isMin := false
+						for _, side := range []ssa.Value{bo.X, bo.Y} {
+							if fl, ok := side.(*ssa.Field); ok {
+								st := fl.X.Type().Underlying().(*types.Struct)
+								if st.Field(fl.Field).Name() == "Min" {
+									isMin = true
+								}
+							}
+						}
+						if isMin {
+							env[a.key] = a.set.contains(av.n)
+							continue
+						}
+					}
+					free = append(free, a)
+				}
+				// anything else asked of the child itself must not matter (for all
+				// its values); tests about the surroundings (already configured,
+				// belongs to a choice, more children to go) may select (exists)
+				var envFree, accFree []*pcAtom
+				for _, a := range free {
+					if aboutChild(a) {
+						accFree = append(accFree, a)
+					} else {
+						envFree = append(envFree, a)
+					}
+				}
+				for am := 0; am < 1<<len(accFree); am++ {
+					for i, a := range accFree {
+						env[a.key] = am&(1<<i) != 0
+					}
+					got := false
+					for m := 0; m < 1<<len(envFree); m++ {
+						for i, a := range envFree {
+							env[a.key] = m&(1<<i) != 0
+						}
+						if req.eval(env, map[*pcF]bool{}) {
+							got = true
+							break
+						}
+					}
+					if got != want {
+						extra := ""
+						for _, a := range accFree {
+							extra += fmt.Sprintf(", %s = %v", a.key, env[a.key])
+						}
+						if k == "Leaf" || k == "Container" {
+							bad = fmt.Sprintf("%s = %v%s gives %v", text[k], av.b, extra, got)
+						} else {
+							bad = fmt.Sprintf("Limit().Min = %d%s gives %v", av.n, extra, got)
+						}
+					}
+				}
+			}
+			if !armSeen {
+				r.Fail("R18.7", fn+": "+k, f.Pos(), fn+" has no arm that decides a "+k+" child: such a child is never reported missing here although the sibling classifiers report it")
+				continue
+			}
+			r.Check(bad == "", "R18.7", fn+": "+k, f.Pos(), "required iff "+text[k], fmt.Sprintf("%s decides a %s child differently (%s); the rule and the sibling classifiers say: required iff %s", fn, k, bad, text[k]))
+		}
+	}
 }
